@@ -31,3 +31,11 @@ def run(tier):
 
 
 replay = oc.generic_replay
+
+
+META = {
+    'technique': 'TLC-enumerated timelines x parameters of Ops1.tla aggregate transducers replayed on the real operators on TestScheduler',
+    'level': 'As C05 for the aggregate operators: value(s), terminal kind, exception type and emission instant (short-circuit at the deciding element, folds at completion) of every enumerated scenario are compared with the real operator, hot and cold. Exhaustive for the stated bounds.',
+    'note': 'TLC 1.8; codec; numeric aggregates on small integers',
+    'ref': 'DESIGN.md 6 C06, App. C',
+}
